@@ -81,7 +81,7 @@ claim("C15", "other",
       "static analysis: partial evaluation over an order-abstract (sign) domain + polynomial identities",
       "DESIGN.md §5 C15")
 
-claim("C16", "proof",
+claim("C16", "other",
       "The two Hamiltonian sub-flows are evaluated with the polynomial evaluator abstracted as the gradient of an arbitrary "
       "H: their 12x12 Jacobians satisfy M^T J M = J identically (Hessian symmetric) and they read only variables they do "
       "not modify (exact inverse with -delta); the coupling flow is a symplectic rotation modulo c^2+s^2=1 with "
